@@ -30,6 +30,148 @@ EPS = 2.220446049250313e-16
 
 
 # ============================================================================ worker (child process)
+def _noop(*a):
+    return None
+
+
+def run_sequence(rebound, sp):
+    """a two-body (or star + many test particles) history on the REAL code: options, callbacks, variational
+    particle, and a list of actions (steps / integrate / synchronize / restore / switch / set dt / user edit).
+    Returns check points: physical time elapsed since the previous one and the state(s) relative to the star."""
+    import pickle, tempfile
+    F6 = ("x", "y", "z", "vx", "vy", "vz")
+    clib = rebound.clibrebound
+
+    def configure(sim, integ, coord, opts):
+        sim.integrator = integ
+        if integ == "whfast":
+            w = sim.ri_whfast
+            w.coordinates = COORD_PY[coord]
+            for k in ("safe_mode", "keep_unsynchronized", "corrector", "corrector2"):
+                if k in opts:
+                    setattr(w, k, opts[k])
+            if "kernel" in opts:
+                w.kernel = opts["kernel"]
+        elif integ == "saba":
+            if "type" in opts:
+                sim.ri_saba.type = opts["type"]
+            for k in ("safe_mode", "keep_unsynchronized"):
+                if k in opts:
+                    setattr(sim.ri_saba, k, opts[k])
+        elif integ == "mercurius":
+            for k in ("safe_mode", "r_crit_hill"):
+                if k in opts:
+                    setattr(sim.ri_mercurius, k, opts[k])
+            if "L" in opts:
+                sim.ri_mercurius.L = opts["L"]
+        elif integ == "trace":
+            for k in ("r_crit_hill",):
+                if k in opts:
+                    setattr(sim.ri_trace, k, opts[k])
+        sim.ri_whfast._timestep_warning = 1
+
+    def callbacks(sim):
+        sim.heartbeat = _noop
+        sim.pre_timestep_modifications = _noop
+        sim.post_timestep_modifications = _noop
+        sim.additional_forces = _noop
+        sim.force_is_velocity_dependent = 1
+
+    sim = rebound.Simulation()
+    sim.G = sp["G"]
+    off = sp["off"]
+    sim.add(m=sp["m0"], x=off[0], y=off[1], z=off[2], vx=off[3], vy=off[4], vz=off[5])
+    bodies = sp["bodies"]                      # list of (m, 6-state relative to the star)
+    for m, st in bodies:
+        sim.add(m=m, x=off[0] + st[0], y=off[1] + st[1], z=off[2] + st[2], vx=off[3] + st[3], vy=off[4] + st[4], vz=off[5] + st[5])
+    sim.N_active = sp["nactive"]
+    sim.testparticle_type = sp["tpt"]
+    sim.t = sp.get("t0", 0.0)
+    sim.dt = sp["dt"]
+    integ, coord, opts = sp["integ"], sp["coord"], sp["opts"]
+    configure(sim, integ, coord, opts)
+    if sp.get("var") is not None:
+        v = sim.add_variation(testparticle=1)
+        for k, val in zip(F6, sp["var"]):
+            setattr(v.particles[0], k, val)
+    if sp.get("callbacks"):
+        callbacks(sim)
+
+    def rel(sim):
+        ps = sim.particles
+        a = [getattr(ps[0], k) for k in F6]
+        out = []
+        for i in range(1, len(bodies) + 1):
+            out.append([getattr(ps[i], k) - a[q] for q, k in enumerate(F6)])
+        return out
+
+    def varstate(sim):
+        if sp.get("var") is None:
+            return None
+        vp = sim.var_config[0].particles[0]
+        return [getattr(vp, k) for k in F6]
+
+    cps = []
+    el = 0.0
+    for act in sp["actions"]:
+        kind = act[0]
+        if kind == "steps":
+            clib.reb_simulation_steps(ctypes.byref(sim), ctypes.c_uint(act[1]))
+            el += act[1] * sim.dt
+        elif kind == "integrate":
+            target = sim.t + act[1] * sim.dt          # amount in units of the current step (sign included)
+            sd0, dt0 = sim.steps_done, sim.dt
+            eft = act[2]
+            if eft is None:
+                sim.integrate(target)
+            else:
+                sim.integrate(target, exact_finish_time=eft)
+            ns = sim.steps_done - sd0
+            if ns > 0:
+                el += (ns - 1) * dt0 + (sim.dt_last_done if eft != 0 else dt0)
+        elif kind == "sync":
+            sim.synchronize()
+        elif kind == "restore":
+            if act[1] == "archive":
+                fn = tempfile.mktemp(prefix="c03seq.", suffix=".bin", dir=os.environ.get("VERIF_TMP", "/tmp"))
+                try:
+                    sim.save_to_file(fn, delete_file=True)
+                    sim = rebound.Simulation(fn)
+                finally:
+                    if os.path.exists(fn):
+                        os.remove(fn)
+            elif act[1] == "copy":
+                sim = sim.copy()
+            else:
+                sim = pickle.loads(pickle.dumps(sim))
+            sim.ri_whfast._timestep_warning = 1
+            if sp.get("callbacks"):
+                callbacks(sim)
+        elif kind == "switch":
+            sim.synchronize()
+            if act[3]:
+                sim.reset_integrator()
+            integ, coord, opts = act[1], act[2], act[4]
+            configure(sim, integ, coord, opts)
+        elif kind == "setdt":
+            sim.synchronize()
+            sim.dt = sim.dt * act[1]
+        elif kind == "edit":
+            sim.synchronize()
+            cps.append({"el": el, "rel": rel(sim), "var": varstate(sim)})
+            p = sim.particles[1]
+            p.vx += act[1][0]; p.vy += act[1][1]; p.vz += act[1][2]
+            # what the documentation asks of a user who edits particles with safe_mode=0
+            sim.ri_whfast.recalculate_coordinates_this_timestep = 1
+            sim.ri_mercurius.recalculate_coordinates_this_timestep = 1
+            cps.append({"el": None, "rel": rel(sim), "var": varstate(sim)})     # new start
+            el = 0.0
+    sim.synchronize()
+    cps.append({"el": el, "rel": rel(sim), "var": varstate(sim)})
+    mode = (int(sim.ri_trace._current_C) + (2 if int(sim.ri_trace._encounter_N) > 1 else 0)) if integ == "trace" else 0
+    return {"cps": cps, "t": sim.t, "mode": mode}
+
+
 def worker(scratch):
     """reads op lines on stdin, runs the REAL code, one flushed answer line per op"""
     rebound = use_scratch_rebound(scratch)
@@ -140,6 +282,8 @@ def worker(scratch):
                 fn(ctypes.addressof(sim), dt)
                 res = " ".join(d2h(c) for i in range(n) for c in getp(sim.particles[i + 1]))
                 sim = None
+            elif op == "seq":
+                res = "J " + json.dumps(run_sequence(rebound, json.loads(line.split(None, 2)[2])))
             elif op == "step":
                 integ, coord, nact, tpt = t[2], t[3], int(t[4]), int(t[5])
                 v = [h2d(s) for s in t[6:]]
@@ -380,6 +524,148 @@ def dt_bin(x):
         return "dt=0"
     l = math.floor(math.log10(x))
     return "1e%d" % max(-8, min(3, l))
+
+
+SABA_TYPES = ["1", "2", "3", "4", "cm1", "cm2", "cl1", "cl4", "10,4", "8,6,4", "10,6,4", "h8,4,4", "h10,6,4"]
+MERC_L = ["mercury", "C4", "C5", "infinity"]
+
+
+def gen_options(rng, integ, coord, tags):
+    o = {}
+    if integ == "whfast":
+        o["safe_mode"] = rng.randint(0, 1)
+        o["keep_unsynchronized"] = rng.randint(0, 1)
+        if coord in ("jacobi", "bary") and rng.chance(0.6):
+            o["corrector"] = rng.choice([3, 5, 7, 11, 17])
+            tags.add("option:corrector")
+        if coord == "jacobi" and rng.chance(0.4):
+            o["kernel"] = rng.choice(["modifiedkick", "composition", "lazy"])
+            tags.add("option:kernel_nondefault")
+            if rng.chance(0.5):
+                o["corrector2"] = 1
+                o.setdefault("corrector", 17)
+                tags.add("option:corrector2")
+    elif integ == "saba":
+        o["type"] = rng.choice(SABA_TYPES)
+        o["safe_mode"] = rng.randint(0, 1)
+        o["keep_unsynchronized"] = rng.randint(0, 1)
+        tags.add("option:saba_type")
+    elif integ == "mercurius":
+        o["safe_mode"] = rng.randint(0, 1)
+        o["r_crit_hill"] = rng.choice([1.0, 3.0, 5.0])
+        o["L"] = rng.choice(MERC_L)
+        tags.add("option:mercurius_rcrit_L")
+    elif integ == "trace":
+        o["r_crit_hill"] = rng.choice([1.0, 3.0, 4.0])
+        tags.add("option:trace_rcrit")
+    if o.get("safe_mode") == 0:
+        tags.add("option:safe_mode_0")
+    if o.get("keep_unsynchronized") == 1:
+        tags.add("option:keep_unsynchronized")
+    return o
+
+
+SEQ_CONFIGS = [("whfast", "jacobi"), ("whfast", "dh"), ("whfast", "whds"), ("whfast", "bary"), ("saba", "-"),
+               ("mercurius", "-"), ("trace", "-")]
+
+
+def gen_sequence(rng, idx):
+    """one two-body history: returns (spec for the worker, tags, GM of the exact relative orbit, orbit meta)"""
+    tags = set()
+    integ, coord = SEQ_CONFIGS[idx % len(SEQ_CONFIGS)]
+    while True:
+        o = gen_orbit(rng)
+        e = o["meta"]["e"]
+        x = 2 * math.pi * abs(o["meta"]["dtP"])
+        if e > 1 and x / (e - 1) > 30.0:
+            continue                                    # F14 domain (several sub-steps of up to 3.4 dt)
+        if integ == "trace" and x * abs(1 - e) ** -1.5 > 0.05:
+            continue
+        if integ == "mercurius" and x * abs(1 - e) ** -1.5 > 50.0:
+            continue
+        break
+    if integ == "trace":
+        o["dt"] = abs(o["dt"]); o["meta"]["dtP"] = abs(o["meta"]["dtP"])      # F10
+    dt = o["dt"]
+    G, mt = o["G"], o["m"]
+    role = ("active", "tp0", "tp1")[rng.randint(0, 2)]
+    exact_massive = (integ, coord) in (("whfast", "jacobi"), ("whfast", "whds"), ("saba", "-"))
+    if role == "tp0":
+        m1 = rng.choice([0.0, mt * 1e-3]); m0 = mt; GM = G * m0
+    else:
+        m1 = rng.choice([0.0, mt * 1e-3, mt * rng.uniform(0.05, 0.5)]) if exact_massive else 0.0
+        m0 = mt - m1; GM = G * (m0 + m1)
+    nactive, tpt = {"active": (-1, 0), "tp0": (1, 0), "tp1": (1, 1)}[role]
+    tags.add("role:" + role + (":massive" if m1 else ":massless"))
+    opts = gen_options(rng, integ, coord, tags)
+    sx = math.sqrt(sum(v * v for v in o["st"][:3])); sv = math.sqrt(sum(v * v for v in o["st"][3:]))
+    offk = rng.choice([0.0, rng.uniform(0.1, 2.0)])
+    off = [rng.normal() * sx * offk for _ in range(3)] + [rng.normal() * sv * offk for _ in range(3)]
+    if offk:
+        tags.add("geometry:com_offset_and_boost")
+    sp = {"G": G, "m0": m0, "bodies": [[m1, o["st"]]], "off": off, "dt": dt, "integ": integ, "coord": coord,
+          "nactive": nactive, "tpt": tpt, "opts": opts, "actions": []}
+    if dt < 0:
+        tags.add("time:dt_negative")
+        if e > 1:
+            tags.add("time:hyperbolic_dt_negative")
+    if abs(o["meta"]["dtP"]) > 1:
+        tags.add("time:step_longer_than_period")
+    if e > 1:
+        tags.add("geometry:hyperbolic")
+    if rng.chance(0.15):
+        sp["t0"] = dt * 1e12 * rng.choice([1, -1])
+        tags.add("time:huge_t_over_dt")
+    if rng.chance(0.3):
+        sp["callbacks"] = True
+        tags.add("callbacks:heartbeat_pre_post_additional_forces")
+    if integ == "whfast" and coord == "jacobi" and role != "tp1" and rng.chance(0.5) and "kernel" not in opts:
+        sp["var"] = [rng.normal() * sx for _ in range(3)] + [rng.normal() * sv for _ in range(3)]
+        tags.add("variational:nonzero_testparticle_variation")
+    acts = sp["actions"]
+    nseg = rng.randint(1, 3)
+    for sgi in range(nseg):
+        k = rng.randint(0, 9)
+        if k <= 3 or "t0" in sp:
+            n = rng.randint(1, 4)
+            acts.append(["steps", n])
+            tags.add("time:several_steps" if n > 1 else "time:single_step")
+        else:
+            eft = rng.choice([0, 1, None])
+            acts.append(["integrate", rng.uniform(0.3, 3.7), eft])
+            tags.add("time:integrate_exact_finish_" + {0: "0", 1: "1", None: "omitted"}[eft])
+            if sgi > 0:
+                tags.add("time:integrate_split_in_calls")
+        if sgi == nseg - 1:
+            break
+        h = rng.randint(0, 7)
+        if opts.get("keep_unsynchronized") == 1 and h >= 2:
+            h = rng.randint(0, 1)       # with keep_unsynchronized the run continues from the unsynchronized state: no edits / dt changes / switches
+        if h == 0:
+            acts.append(["sync"]); tags.add("history:explicit_synchronize")
+        elif h == 1:
+            kind = rng.choice(["archive", "copy", "pickle"])
+            acts.append(["restore", kind]); tags.add("history:restore_" + kind)
+        elif h == 2:
+            i2, c2 = SEQ_CONFIGS[rng.randint(0, 4)] if integ != "trace" else SEQ_CONFIGS[rng.randint(0, 3)]
+            if not exact_massive or m1 == 0.0 or (i2, c2) in (("whfast", "jacobi"), ("whfast", "whds"), ("saba", "-")) or role == "tp0":
+                t2 = set()
+                o2 = gen_options(rng, i2, c2, t2)
+                if "var" in sp and not (i2 == "whfast" and c2 == "jacobi"):
+                    pass
+                else:
+                    if "var" in sp:
+                        o2.pop("kernel", None); o2.pop("corrector2", None)
+                    acts.append(["switch", i2, c2, bool(rng.randint(0, 1)), o2])
+                    tags.add("history:integrator_switch"); tags |= t2
+                    integ, coord = i2, c2
+        elif h == 3 and integ != "trace":
+            acts.append(["setdt", -1.0]); tags.add("time:direction_reversal")
+        elif h == 4:
+            acts.append(["setdt", rng.choice([0.5, 2.0, 0.37])]); tags.add("time:dt_changed_between_calls")
+        elif h == 5:
+            acts.append(["edit", [rng.normal() * sv * 0.05 for _ in range(3)]]); tags.add("history:user_edit_between_steps")
+    return sp, tags, GM, o, offk
 
 
 # ============================================================================ oracle
@@ -1046,6 +1332,137 @@ def run_(c):
     c.cov["full_step"] = {"cases": len(slines), "cases_per_configuration": dict(sorted(rolehist.items())), "worst_error_over_unit": sworst, "allowed": SAFETY * 4,
                           "trace_cases_skipped_because_pericentre_switch_fired": skipped_trace,
                           "not_covered": "WHFast512 (needs AVX512, not compiled here)"}
+
+    # ---------------------------------------------------------------- histories: options x time x callbacks x restores x edits
+    nseq = 2800 if c.thorough else 280
+    specs = []
+    for i in range(nseq):
+        rng = c.rng.fork()
+        specs.append(gen_sequence(rng, i))
+    # star + many type-0 test particles (allocation boundaries 128 / 1024)
+    for K, (integ, coord) in ([(1100, ("whfast", "dh")), (130, ("whfast", "jacobi")), (130, ("mercurius", "-")), (1030, ("saba", "-"))] if c.thorough
+                              else [(130, ("whfast", "jacobi")), (130, ("mercurius", "-"))]):
+        rng = c.rng.fork()
+        G = 10 ** rng.uniform(-2, 2); m0 = 10 ** rng.uniform(-2, 2)
+        bodies, orbs = [], []
+        dt = None
+        for q in range(K):
+            o = gen_orbit(rng, e=rng.uniform(0, 0.8), M=G * m0, a=10 ** rng.uniform(0, 1), dt_over_P=0.01 if dt is None else None)
+            if dt is None:
+                dt = o["dt"]
+            bodies.append([0.0, o["st"]]); orbs.append(o)
+        sp = {"G": G, "m0": m0, "bodies": bodies, "off": [0.0] * 6, "dt": dt, "integ": integ, "coord": coord,
+              "nactive": 1, "tpt": 0, "opts": {}, "actions": [["steps", 3]]}
+        specs.append((sp, {"scale:N_%s_test_particles" % (">1024" if K > 1024 else ">128")}, G * m0, orbs, 0.0))
+    c.log("%d two-body histories (options, callbacks, restores, edits, switches) on the real code" % len(specs))
+    qro = real.run(["seq %d %s" % (i, json.dumps(sp[0])) for i, sp in enumerate(specs)])
+    qol, qmeta = [], {}
+    dims = {}
+    seq_fail = 0
+    for i, (sp, tags, GM, o, offk) in enumerate(specs):
+        ans = qro.get(str(i), "")
+        cfg = sp["integ"] + ("/" + sp["coord"] if sp["coord"] != "-" else "")
+        rep0 = {"spec": sp, "tags": sorted(tags), "mu_expected": GM, "answer": ans[:300]}
+        if not ans.startswith("J "):
+            c.count(("seq", cfg, tuple(sorted(tags))))
+            c.violation("history-%s:%s" % ((ans.split()[0].lower() if ans else "noanswer"), cfg),
+                        "a two-body history with %s (%s): %s" % (cfg, ", ".join(sorted(tags))[:200], ans[:120]), rep0)
+            continue
+        R = json.loads(ans[2:])
+        if sp["integ"] == "trace" and R["mode"] != 0:
+            continue
+        for tg in tags | {"integrator:" + cfg, "option:G_not_1"}:
+            dims[tg] = dims.get(tg, 0) + 1
+        c.count(("seq", cfg, tuple(sorted(tags))))
+        cps = R["cps"]
+        start = [b[1] for b in sp["bodies"]]
+        vstart = sp.get("var")
+        seg = 0
+        for cp in cps:
+            if cp["el"] is None:
+                start, vstart = cp["rel"], cp["var"]
+                continue
+            for b in range(len(start)):
+                cid = "%d_%d_%d" % (i, seg, b)
+                l = "%s %s %s" % (cid, " ".join(d2h(v) for v in [GM] + start[b] + [cp["el"]]), " ".join(d2h(v) for v in cp["rel"][b]))
+                if vstart is not None and cp["var"] is not None and b == 0:
+                    l += " " + " ".join(d2h(v) for v in vstart) + " " + " ".join(d2h(v) for v in cp["var"])
+                qol.append(l)
+                qmeta[cid] = (i, seg, b)
+            start, vstart = cp["rel"], cp["var"]
+            seg += 1
+    qref = run_oracle(qol)
+    qworst = {}
+    tworst2 = 0.0
+    for cid, (i, seg, b) in qmeta.items():
+        sp, tags, GM, o, offk = specs[i]
+        j = qref.get(cid)
+        cfg = sp["integ"] + ("/" + sp["coord"] if sp["coord"] != "-" else "")
+        rep = {"spec": sp if len(sp["bodies"]) < 5 else {k: v for k, v in sp.items() if k != "bodies"}, "tags": sorted(tags), "mu_expected": GM, "segment": seg, "body": b}
+        if j is None or "error" in j:
+            raise Infra("reference gave no answer for history %s: %s" % (cid, j))
+        if j["kind"] == "line":
+            continue
+        if not j.get("finite", False):
+            c.violation("history-nonfinite:" + cfg, "a two-body history with %s (%s) ends with NaN/inf coordinates" % (cfg, ", ".join(sorted(tags))[:200]), rep)
+            continue
+        if j["kind"] == "hyp" and j["hyp_s"] > 100.0:
+            continue                                   # F14 domain
+        e_ = j["e"]
+        J = (4.0 / abs(1.0 - e_) if e_ != 1.0 else float("inf")) * j["ndt"] * max(1.0, j["amp_x"], j["amp_v"])
+        unit = tolerance(j) * (1.0 + J) * (1.0 + 2.0 * offk)
+        err = max(j["errx"], j["errv"])
+        ratio = err / unit
+        if ratio > qworst.get(cfg, (0,))[0]:
+            qworst[cfg] = (ratio, err, sorted(tags))
+        if err > unit * SAFETY * 16:
+            seq_fail += 1
+            rep.update(err=err, allowed=unit * SAFETY * 16, got=None, reference=[h2d(x) for x in j["ref"]])
+            c.violation("history-inexact:" + cfg, "a two-body history with %s (%s) leaves the exact Kepler orbit by %.3g relative (allowed %.3g), e=%.6g"
+                        % (cfg, ", ".join(sorted(tags))[:240], err, unit * SAFETY * 16, e_), rep)
+        if "terrx" in j:
+            tunit = unit * (1 + j["ndt"])
+            terr = max(j["terrx"], j["terrv"])
+            tworst2 = max(tworst2, terr / tunit)
+            if terr > SAFETY * 16 * tunit:
+                rep.update(err=terr, allowed=SAFETY * 16 * tunit)
+                c.violation("history-tangent-inexact:" + cfg, "variational particle riding along a two-body history with %s (%s) differs from the derivative of the exact flow by %.3g (allowed %.3g)"
+                            % (cfg, ", ".join(sorted(tags))[:200], terr, SAFETY * 16 * tunit), rep)
+    c.cov["histories"] = {"cases": len(specs), "segments_checked": len(qmeta), "allowed": SAFETY * 16,
+                          "worst_error_over_unit": {k: {"ratio": v[0], "err": v[1], "tags": v[2]} for k, v in qworst.items()},
+                          "tangent_worst_error_over_unit": tworst2}
+    # dimensions crossed with the core oracle (see notes/C03.md for the ones not applicable)
+    hist = c.cov.get("branch_histogram", {})
+    dims["solver_tie:dt_negative"] = sum(1 for o in cases if o["dt"] < 0)
+    dims["solver_tie:elliptic_bisection_dt_negative"] = sum(1 for o in cases if o["dt"] < 0 and o.get("path", "").startswith("ell") and "bisection" in o.get("path", ""))
+    dims["solver_tie:hyperbolic_dt_negative"] = sum(1 for o in cases if o["dt"] < 0 and o.get("path", "").startswith("hyp"))
+    dims["solver_tie:step_longer_than_period"] = sum(1 for o in cases if abs(o["meta"]["dtP"]) > 1)
+    dims["solver_tie:variational_particle_nonzero"] = len(vkeep)
+    dims["kepler_step_tie:N_active_lt_N"] = sum(1 for m in kmeta if m[3] != -1 and m[2] < m[1])
+    dims["jump_step_tie:testparticle_type_1"] = sum(1 for m in jmeta if m[1] == 1)
+    for k, v in c.cov["full_step"]["cases_per_configuration"].items():
+        r_ = "full_step_role:" + k.split(":")[1] + ":" + k.split(":")[2]
+        dims[r_] = dims.get(r_, 0) + v
+    required = ["option:safe_mode_0", "option:keep_unsynchronized", "option:corrector", "option:corrector2", "option:kernel_nondefault",
+                "option:saba_type", "option:mercurius_rcrit_L", "option:trace_rcrit", "option:G_not_1",
+                "time:dt_negative", "time:hyperbolic_dt_negative", "time:step_longer_than_period", "time:direction_reversal",
+                "time:dt_changed_between_calls", "time:integrate_split_in_calls", "time:integrate_exact_finish_0",
+                "time:integrate_exact_finish_1", "time:integrate_exact_finish_omitted", "time:huge_t_over_dt", "time:several_steps",
+                "callbacks:heartbeat_pre_post_additional_forces", "history:restore_archive", "history:restore_copy", "history:restore_pickle",
+                "history:explicit_synchronize", "history:integrator_switch", "history:user_edit_between_steps",
+                "variational:nonzero_testparticle_variation", "geometry:com_offset_and_boost", "geometry:hyperbolic",
+                "role:tp0:massive", "role:tp0:massless", "role:tp1:massive", "role:tp1:massless", "role:active:massive", "role:active:massless",
+                "scale:N_>128_test_particles", "solver_tie:elliptic_bisection_dt_negative", "solver_tie:hyperbolic_dt_negative",
+                "solver_tie:variational_particle_nonzero", "kepler_step_tie:N_active_lt_N", "jump_step_tie:testparticle_type_1"] + \
+               ["integrator:" + (a + ("/" + b if b != "-" else "")) for a, b in SEQ_CONFIGS]
+    if c.thorough:
+        required.append("scale:N_>1024_test_particles")
+    for k in required:
+        dims.setdefault(k, 0)
+    c.cov["dimensions"] = dict(sorted(dims.items()))
+    for k in required:
+        if dims[k] == 0:
+            c.broken.append("proof obligation: dimension %s not covered by this run" % k)
     c.cov["watchdog"] = {"hangs": real.hangs + real_h.hangs, "worker_restarts": real.restarts + real_h.restarts}
 
 
